@@ -36,12 +36,15 @@ POOL = [float("-inf"), -3, -1.5, -1, -1.0, -0.0, 0, 0.0, 1, 1.0, 2, 2.5, 3, 3.0,
 BIG_INTS = (10 ** 30, 2 ** 53 + 1, 2 ** 53 + 2, 2 ** 1024, -(2 ** 1024) - 1, 10 ** 400, 10 ** 5000)
 FOREIGN = ["a", None, 1j, (1, 2), "1"]
 
-SET_OPS = ["add", "add", "discard", "remove", "pop", "clear", "in", "len", "probe"]
+SET_OPS = ["add", "add", "discard", "remove", "pop", "clear", "in", "len", "probe", "clone"]
 MAP_OPS = ["store", "store", "delete", "pop", "popitem", "setdefault", "update", "get", "in", "items", "lookup",
-           "probe", "clear", "bad_store"]
+           "probe", "clear", "bad_store", "clone"]
 
 
 def gen_case(rng, tier, index):
+    if index % 400 in (7, 8):
+        return {"big": True, "kind": "set" if index % 2 else "map", "n": rng.choice([1100, 2100, 4200, 1025]), "seed": rng.randrange(1 << 30),
+                "ops": [], "form": "big", "init": []}
     kind = "set" if index % 2 == 0 else "map"
     form = rng.choice(["none", "empty_list", "empty_tuple", "empty_gen", "empty_dict", "list", "list", "list", "gen",
                        "dict", "pairs", "pairs", "range_up", "range_down", "builtin_set", "dict_view"])
@@ -194,8 +197,64 @@ def check_state(kind, s, model, desc):
             raise Violation("content-mismatch", f"after {desc}: items() -> {g}, reference {[(k, model[k]) for k in want]!r}", {})
 
 
+def run_big(case, res):
+    """Thousands of keys (any internal window / block size is crossed): every key looked up, re-stored, some deleted."""
+    from windpyutils.structures.sorted import SortedSet, SortedMap
+    import random
+    rng = random.Random(case["seed"])
+    n = case["n"]
+    keys = rng.sample(range(-3 * n, 3 * n), n)
+    if case["kind"] == "map":
+        m, d = SortedMap((k, f"v{k}") for k in keys[: n // 2]), {k: f"v{k}" for k in keys[: n // 2]}
+        for k in keys[n // 2:]:
+            m[k] = f"v{k}"
+            d[k] = f"v{k}"
+        for phase in range(2):
+            ks = sorted(d)
+            if list(m) != ks or len(m) != len(ks):
+                raise Violation("content-mismatch", f"SortedMap with {len(ks)} keys (phase {phase}): iteration differs from sorted(dict)", {})
+            for j, k in enumerate(ks):
+                g = _g("lookup", lambda: m[k])
+                if g != ("ok", d[k]):
+                    raise Violation("lookup-value", f"SortedMap with {len(ks)} keys: m[{k}] (position {j} of {len(ks)}) -> {g}", {})
+                if j % 2 == phase:
+                    m[k] = d[k] = f"w{k}"           # a store of a present key
+            if len(m) != len(d) or list(m) != sorted(d):
+                raise Violation("content-mismatch", f"SortedMap with {len(d)} keys: re-storing present keys changed the key list "
+                                f"(len {len(m)})", {})
+            for k in ks[::7]:
+                del m[k]
+                del d[k]
+            for k in (ks[0] - 1, ks[-1] + 1, ks[len(ks) // 2] + 0.5):
+                if (k in m) or m.get(k, "dflt") != "dflt":
+                    raise Violation("membership", f"SortedMap with {len(d)} keys: absent key {k} reported present", {})
+    else:
+        s, d = SortedSet(keys[: n // 2]), set(keys[: n // 2])
+        for k in keys[n // 2:]:
+            s.add(k)
+            d.add(k)
+        for phase in range(2):
+            ks = sorted(d)
+            if list(s) != ks or len(s) != len(ks):
+                raise Violation("content-mismatch", f"SortedSet with {len(ks)} values: iteration differs from sorted(set)", {})
+            for j, k in enumerate(ks):
+                if not (k in s):
+                    raise Violation("membership", f"SortedSet with {len(ks)} values: {k} (position {j}) in s -> False", {})
+                s.add(k)
+            if len(s) != len(ks):
+                raise Violation("content-mismatch", f"SortedSet with {len(ks)} values: adding present values changed len to {len(s)}", {})
+            for k in ks[::5]:
+                s.discard(k)
+                d.discard(k)
+    res.evaluations += 4 * n
+    res.count("structures_with_thousands_of_keys")
+    res.seen(("big", case["kind"], n))
+
+
 def run_case(case, res):
     sys.set_int_max_str_digits(0)
+    if case.get("big"):
+        return run_big(case, res)
     kind = case["kind"]
     s, model, desc = build(case)
     res.evaluations += 1
@@ -229,6 +288,21 @@ def run_case(case, res):
                 if g[0] != "ok" or g[1] not in model:
                     raise Violation("content-mismatch", f"pop() -> {g}, not an element of {sorted(model)!r}", {})
                 model.discard(g[1])
+        elif op == "clone":
+            # the caller goes on with a copy (copy.deepcopy / pickle round trip / copy.copy): same content, independent
+            import copy
+            import pickle
+            how = ["deepcopy", "pickle", "copy"][aux % 3]
+            fn = {"deepcopy": copy.deepcopy, "pickle": lambda x: pickle.loads(pickle.dumps(x)), "copy": copy.copy}[how]
+            g = _g(f"{how} of the structure", lambda: fn(s))
+            if g[0] != "ok" or type(g[1]) is not type(s):
+                raise Violation("operation-raised", f"{how} of {type(s).__name__} -> {g}", {})
+            if how != "copy":
+                s = g[1]
+                desc = f"continuing with a {how}"
+            else:
+                check_state(kind, g[1], model, "a copy.copy of the structure")
+            res.count("clones_made")
         elif op == "clear":
             g = _g("clear()", lambda: s.clear())
             if g != ("ok", None):
